@@ -18,7 +18,7 @@ var fragMore = []string{
 	"&lt;", "&#13;", "&#0;", "\r", "\x00", "\xff", "\U0001F600", "\ufeff", "&", "\"", "'", "=", "/",
 	"<B>", "<b", "<b ", "</", "<a href=", "<a href=\"", "<b/>", "<x/>",
 	"<SCRIPT>", "<script/>", "<scrİpt>", "</SCRIPT>", "<style/>",
-	"--!>", "<!-->", "<![CDATA[", "]]>", "<?pi?>", "<!DOCTYPE html>", "<!",
+	"--!>", "<!-->", "--&gt;", "--!&gt;", "<![CDATA[", "]]>", "<?pi?>", "<!DOCTYPE html>", "<!",
 	"<textarea>", "</textarea>", "<xmp>", "</xmp>", "<iframe>", "</iframe>", "<noscript>", "<plaintext>",
 	"<svg>", "</svg>", "<math>", "<desc>", "<foreignobject>", "<table>", "<td>", "<select>",
 	"<p id=a id=b>", "<i id=\"q\" onclick=x>", "<i id='q'>", "<i id>", "<b \"=\"x\">", "<b a<b=c>", "<b =x>",
@@ -36,6 +36,8 @@ var fragExotic = []string{
 	"<textarea/>", "<title/>", "<object/>", "<iframe/>", "<a href=\"http://e.x/\"/>", "<p/>", "<my-x id=a/>", "<img src=x/>", "<script src=x/>",
 	// every void element, bare and with an attribute
 	"<source>", "<input>", "<embed>", "<area>", "<track>", "<link>", "<meta>", "<param>", "<base>", "<col>", "<hr>", "<wbr>", "<area href=\"/x\">", "<source src=x>",
+	// a comment opened as the first thing inside a raw-text element
+	"<noscript><!--</noscript>", "<xmp><!--</xmp>",
 	// end-tag oddities
 	"</B>", "</b x=1>", "</b/>", "</p\n>", "</ b>", "</br>", "</my-y>", "</object>", "</title >",
 	// separators and odd characters inside tags
